@@ -87,17 +87,17 @@ def run(R):
             ent = [prog.inst[i].name for i in seen if effects.ENTROPY_NAMES.search(prog.inst[i].name)]
             R.check("os" in classes and ent, "C15-control", root, f"positive control: this cone does reach OS entropy ({len(ent)} entropy functions, leaf classes {sorted(classes)})",
                     "positive control failed: the classifier does not see OS entropy in a cone that must contain it", key=f"control|{root}")
-    # (2) seed flow
+    # (2) seed flow: every byte of the seed parameter, in place, reaches StdRng::from_seed
     for N in (512, 1024):
-        inst = S.find(f"falcon::SecretKey::<{N}>::gen_b0")
+        inst = S.find(f"falcon::keygen::<{N}>")
         events = []
 
         def obs(ev, **kw):
             if ctx.quiet:
                 return
-            if ev == "enter" and kw["frame"].inst is inst:
+            if ev == "enter":
                 nm = kw["callee"].name
-                if nm.endswith("SeedableRng>::from_seed"):
+                if nm.endswith("SeedableRng>::from_seed") and "StdRng" in nm:
                     events.append(("from_seed", kw["args"], kw["st"]))
                 elif nm == "falcon_rust::math::ntru_gen":
                     events.append(("ntru_gen", kw["args"], kw["st"]))
@@ -105,25 +105,30 @@ def run(R):
                 events.append(("entropy", kw["rng"], kw["frame"].inst.name))
         ctx.observers.append(obs)
         saved = ctx.no_inline
-        ctx.no_inline = lambda i: i.name == "falcon_rust::math::ntru_gen" or saved(i)
+        ctx.no_inline = lambda i: i.name == "falcon_rust::math::ntru_gen" or "from_secret_key" in i.name or saved(i)
         st = St()
         u8 = S.ty("u8")
-        seed = Sq(ctx.top_int(st, u8, taint=frozenset({"seed"})), ctx.const_int(st, 32, ctx.usize_ty()))
+        heads = {i: ctx.top_int(st, u8, taint=frozenset({("seed", i)})) for i in range(32)}
+        seed = Sq(ctx.top_int(st, u8, taint=frozenset({("seed", "any")})), ctx.const_int(st, 32, ctx.usize_ty()), heads)
         outs = S.run(inst, [seed], st)
         ctx.no_inline = saved
         ctx.observers.remove(obs)
-        site = f"gen_b0::<{N}>"
+        site = f"keygen::<{N}>"
         fs = [e for e in events if e[0] == "from_seed"]
         ok = False
-        why = f"{len(fs)} from_seed call(s)"
+        why = f"{len(fs)} StdRng::from_seed call(s) under keygen"
         if len(fs) == 1:
             a = fs[0][1][0]
             stt = fs[0][2]
-            if type(a) is Sq and stt.const(a.len) == 32:
-                labs, unl, n = skeleton.labels_of(stt, a)
-                ok = labs == {"seed"} and not unl
-                why = f"argument labels {sorted(map(str, labs))}, unlabelled bytes: {unl}"
-        R.check(ok, "C15-seed", site, "the generator is StdRng::from_seed(seed) with all 32 bytes of the unmodified parameter", why, key=f"seed|{N}")
+            if type(a) is Sq and stt.const(a.len) == 32 and a.head and len(a.head) == 32:
+                got = [sorted(map(str, stt.taint.get(a.head[i].vid, {"<none>"}))) for i in range(32)]
+                want = [[str(("seed", i))] for i in range(32)]
+                ok = got == want
+                bad = [i for i in range(32) if got[i] != want[i]]
+                why = f"bytes {bad[:8]} of the generator seed are not the corresponding bytes of the parameter (e.g. byte {bad[0]} carries {got[bad[0]]})" if bad else ""
+            else:
+                why = "the generator seed is not a 32-byte array whose bytes can be traced individually to the parameter"
+        R.check(ok, "C15-seed", site, "the generator is StdRng::from_seed(seed): each of the 32 seed bytes reaches it unmodified, in place", why, key=f"seed|{N}")
         ng = [e for e in events if e[0] == "ntru_gen"]
         okg = False
         for e in ng:
@@ -139,7 +144,7 @@ def run(R):
         R.check(len(ng) >= 1 and okg, "C15-seed", site + " -> ntru_gen", "ntru_gen receives that seeded generator (and nothing else random)",
                 f"ntru_gen calls: {len(ng)}; generator argument is not the from_seed generator", key=f"ntru|{N}")
         other = [e for e in events if e[0] == "entropy"]
-        R.check(not other, "C15-seed", site + " (other draws)", "gen_b0 itself draws no other randomness", f"extra draws: {other[:3]}", key=f"extra|{N}")
+        R.check(not other, "C15-seed", site + " (other draws)", "nothing else draws randomness between keygen and ntru_gen", f"extra draws: {other[:3]}", key=f"extra|{N}")
     # ntru_gen / gen_poly / sampler_z: all draws come from the parameter
     inst = S.find("math::ntru_gen")
     draws = []
